@@ -2752,6 +2752,13 @@ class Cond(Generic[X, R], GFI[X, R]):
         **kwargs,
     ) -> tuple[Trace[X, R], Weight, X]:
         (check, *rest_args) = args
+        # Unconstrained choices keep the value that was visible under the old condition,
+        # whichever branch the new condition selects (each branch trace on its own would
+        # fall back to its own, possibly hidden, old value).
+        if x is None:
+            x = tr.get_choices()
+        elif isinstance(x, dict):
+            x, _ = self.callee.merge(tr.get_choices(), x)
         new_tr, w, discard = self.callee.update(tr.trs[0], x, *rest_args, **kwargs)
         new_tr_, w_, discard_ = self.callee_.update(tr.trs[1], x, *rest_args, **kwargs)
         # The discarded values are those that were visible under the *old* condition.
